@@ -75,6 +75,13 @@ def mentions(node):
         elif k == "Struct":
             for fd in n.get("fields", []):
                 out.append(("field", fd["name"], n.get("line")))
+        elif k == "Block":
+            # names of `let` bindings (a mis-named binding silently stops shadowing the value it was meant to replace)
+            for st_ in n.get("stmts", []):
+                if st_["k"] == "Let":
+                    for bn in hir.pat_bindings(st_["pat"]):
+                        if bn:
+                            out.append(("binding", bn, st_.get("line")))
     return out
 
 
@@ -221,7 +228,13 @@ def rule_A_NAMES(ctx, modules=MODULES):
             if len(args) != len(ps) or (it["name"], hir.callee_name(c)) in SWAP_EXCEPTIONS:
                 continue
             n += 1
-            names = [(field_path(strip(a)) or (None,))[-1] if field_path(strip(a)) and len(field_path(strip(a))) == 1 else None for a in args]
+            def plain(a):
+                a = strip(a)
+                while a["k"] == "AddrOf" or (a["k"] == "Unary" and a.get("op") in ("*", "Deref")):
+                    a = strip(a["e"])
+                fp = field_path(a)
+                return fp[0] if fp and len(fp) == 1 else None
+            names = [plain(a) for a in args]
             for i, nm in enumerate(names):
                 if nm and nm != "self" and nm in ps and ps[i] != nm and ps.index(nm) != i and names[ps.index(nm)] != nm:
                     ctx.ob("A-NAMES", "%s: %s(.. %s ..)" % (it["name"], hir.callee_name(c), nm), False,
